@@ -380,9 +380,14 @@ impl store::Cob for Identity {
     ) -> Result<(), ApplyError> {
         let id = op.id;
         let concurrent = concurrent.into_iter().collect::<Vec<_>>();
+        // Apply the operation to a copy of the state: an operation that is rejected is pruned
+        // from the history and must not leave anything behind. Actions update the state before
+        // all of their checks have passed (eg. `heads` before the signature is verified), and
+        // the earlier actions of a rejected operation must not be kept either.
+        let mut state = self.clone();
 
         for action in op.actions {
-            match self.action(action, id, op.author, op.timestamp, &concurrent, repo) {
+            match state.action(action, id, op.author, op.timestamp, &concurrent, repo) {
                 Ok(()) => {}
                 // This particular error is returned when there is a mismatch between the expected
                 // and the actual state of a revision, which can happen concurrently. Therefore
@@ -397,9 +402,11 @@ impl store::Cob for Identity {
                 Err(ApplyError::Redacted) => {}
                 Err(other) => return Err(other),
             }
-            debug_assert!(!self.timeline.contains(&id));
-            self.timeline.push(id);
+            debug_assert!(!state.timeline.contains(&id));
+            state.timeline.push(id);
         }
+        *self = state;
+
         Ok(())
     }
 }
